@@ -37,6 +37,7 @@ contract(
 )
 
 from pyvc.contracts import enum_key, forall_enum, forall_int  # noqa: E402
+from pyvc.spec import heap_pred  # noqa: E402
 from pyvc.values import enum_members  # noqa: E402
 
 CMD0_FIRST, N_CMD0 = enum_members(cmd0)[0], len(enum_members(cmd0))
@@ -61,6 +62,7 @@ def consistent1(e, r):
                    and machine_of(e, r).registers[0][r][1] == e.decoded[r][1])
 
 
+@heap_pred(reads=["reg_machine", "registers", "n_banks", "bank_idx", "decoded", "map:Tuple_PyInt__PyInt_"])
 def emit_inv(e):
     """Representation invariant of CommandStreamEmitter: two single-bank register machines with separate maps, and
     every remembered register value is the value the decoded stream holds (so eliding a repeated write is sound)."""
@@ -72,6 +74,7 @@ def emit_inv(e):
 
 
 GHOST = dict(ghost_fields=["decoded"])
+REVEAL = dict(reveal=["emit_inv"])
 
 contract(
     "ethosu.vela.register_command_stream_generator:CommandStreamEmitter.get_reg_machine", props=["C06"],
@@ -81,12 +84,22 @@ contract(
     returns=RM, always_inline=True,
 )
 
+from enum import Enum  # noqa: E402
+from ethosu.vela.ethos_u55_regs.ethos_u55_regs import activation as reg_activation  # noqa: E402
+
+
+def pval(param):
+    """the integer a cmd0 parameter stands for (enum members are written by value)"""
+    return int(param.value) if isinstance(param, Enum) else int(param)
+
+
 contract(
     "ethosu.vela.register_command_stream_generator:CommandStreamEmitter.cmd0_with_param", props=["C06"],
-    variants={"int": dict(self=EMIT, cmd=TEnum(cmd0), param=PyInt)},
+    variants={"int": dict(self=EMIT, cmd=TEnum(cmd0), param=PyInt),
+              "enum": dict(self=EMIT, cmd=TEnum(cmd0), param=TEnum(reg_activation))},
     # no truncation: the value is representable in the 16-bit field (unsigned, or two's complement for signed fields)
-    requires=["emit_inv(self)", "-(2**15) <= param < 2**16"],
-    ghost={"after:self.cmd_stream.append((command,))": ["self.decoded[cmd] = (param, 0)"]}, **GHOST,
+    requires=["emit_inv(self)", "-(2**15) <= pval(param) < 2**16"],
+    ghost={"after:self.cmd_stream.append((command,))": ["self.decoded[cmd] = (param, 0)"]}, **GHOST, **REVEAL,
     ensures=[
         "len(self.reg_machine) == 2 and rm_ok(self.reg_machine[0]) and rm_ok(self.reg_machine[1])",
         "self.reg_machine[0] is not self.reg_machine[1] and self.reg_machine[0].registers[0] is not self.reg_machine[1].registers[0]",
@@ -95,10 +108,10 @@ contract(
         "forall_enum(cmd1, lambda r: consistent1(self, r))",
         "emit_inv(self)",
         # the decoder's register now holds the 16-bit value, whether or not a word was emitted
-        "self.decoded[cmd] is not None and self.decoded[cmd][0] == param % 2**16",
+        "self.decoded[cmd] is not None and self.decoded[cmd][0] == pval(param) % 2**16",
         # at most one word is appended, and it encodes (cmd, param)
         "len(self.cmd_stream) == old(len(self.cmd_stream)) or len(self.cmd_stream) == old(len(self.cmd_stream)) + 1",
-        "implies(len(self.cmd_stream) == old(len(self.cmd_stream)) + 1, self.cmd_stream[len(self.cmd_stream) - 1][0] == cmd.value + (param % 2**16) * 2**16)",
+        "implies(len(self.cmd_stream) == old(len(self.cmd_stream)) + 1, self.cmd_stream[len(self.cmd_stream) - 1][0] == cmd.value + (pval(param) % 2**16) * 2**16)",
         "implies(len(self.cmd_stream) == old(len(self.cmd_stream)) + 1, self.cmd_stream[len(self.cmd_stream) - 1][1] is None)",
         "all(self.cmd_stream[i] == old(self.cmd_stream)[i] for i in range(old(len(self.cmd_stream))))",
         "self.offset == old(self.offset) + 4 * (len(self.cmd_stream) - old(len(self.cmd_stream)))",
@@ -118,7 +131,7 @@ contract(
     # no truncation: the payload fits 32 bits (unsigned or two's complement) -- or it is an address whose bits above 32
     # travel in the param (cmd1_with_address)
     requires=["emit_inv(self)", "0 <= param < 2**16", "-(2**31) <= offset < 2**32 or (offset >= 0 and param == offset // 2**32)"],
-    ghost={"after:self.cmd_stream.append((command, offset))": ["self.decoded[cmd] = (param, offset)"]}, **GHOST,
+    ghost={"after:self.cmd_stream.append((command, offset))": ["self.decoded[cmd] = (param, offset)"]}, **GHOST, **REVEAL,
     ensures=[
         "emit_inv(self)",
         # the decoder's register holds exactly (param, payload), whether or not words were emitted
@@ -150,7 +163,7 @@ contract(
 contract(
     "ethosu.vela.register_command_stream_generator:CommandStreamEmitter.cmd_wait", props=["C06", "C04"],
     variants={"int": dict(self=EMIT, cmd=TEnum(cmd0, members=[cmd0.NPU_OP_KERNEL_WAIT, cmd0.NPU_OP_DMA_WAIT]), channel=TInt(lo=0, hi=3), outstanding_count=TInt(lo=0, hi=15))},
-    requires=["emit_inv(self)"], **GHOST,
+    requires=["emit_inv(self)"], **GHOST, **REVEAL,
     ensures=[
         "emit_inv(self)",
         # always emitted (never elided); the word carries 16 * channel + count
@@ -166,7 +179,7 @@ OPS = [m for m in enum_members(cmd0) if m.name.startswith("NPU_OP_") and m.name 
 contract(
     "ethosu.vela.register_command_stream_generator:CommandStreamEmitter.cmd_do_operation", props=["C06"],
     variants={"int": dict(self=EMIT, cmd=TEnum(cmd0, members=OPS), param=TInt(lo=0, hi=0xFFFF))},
-    requires=["emit_inv(self)"], **GHOST,
+    requires=["emit_inv(self)"], **GHOST, **REVEAL,
     ensures=[
         "emit_inv(self)",
         "len(self.cmd_stream) == old(len(self.cmd_stream)) + 1",
